@@ -33,6 +33,7 @@ import (
 	"sort"
 	"strings"
 	"sync"
+	"sync/atomic"
 	"testing"
 	"time"
 
@@ -481,12 +482,12 @@ func (g *c16LogGate) Write(p []byte) (int, error) {
 
 type c16Env struct {
 	blocked int // sessions whose tokens.get() or runSession did not return in time
-	r      *vh.Run
-	broker *c16Broker
-	relay  *c16Relay
-	sf     *SnowflakeProxy
-	gate   *c16LogGate
-	pionOK bool
+	r       *vh.Run
+	broker  *c16Broker
+	relay   *c16Relay
+	sf      *SnowflakeProxy
+	gate    *c16LogGate
+	pionOK  bool
 }
 
 func c16Setup(r *vh.Run) *c16Env {
@@ -937,6 +938,80 @@ func (e *c16Env) timeouts(M int) {
 	}
 }
 
+// stalledDownloader: a connected client stops reading in the middle of a relay-to-client bulk transfer and then
+// goes away without draining what is queued for it.  The handler must still end and return the slot.
+func (e *c16Env) stalledDownloader() {
+	r := e.r
+	tokens = newTokens(2)
+	c, err := c16NewClient()
+	if err != nil {
+		r.Note("stalled downloader: client: %v", err)
+		return
+	}
+	block := make(chan struct{})
+	var got int64
+	c.dc.OnMessage(func(m webrtc.DataChannelMessage) {
+		if atomic.AddInt64(&got, int64(len(m.Data))) > 64<<10 {
+			<-block // the client application stops reading
+		}
+	})
+	path := "/stalled-downloader"
+	p := &c16Plan{poll: "offer", offer: c.offer, client: c, answer: "accept", applyAfter: 0, relayURL: e.relay.wsURL(path)}
+	_, o := e.session(e.sf, p, 15*time.Second)
+	line := "c16 events 1 2 d  [relay pushes 6 MiB to a connected client whose OnMessage blocks after 64 KiB; the client then closes its peer connection]"
+	r.Case("exit/d/stalled-downloader-leaves", line, true)
+	if o != "ok" {
+		r.OracleFail("run-session-"+o, line, o, "runSession did not return")
+		close(block)
+		return
+	}
+	// wait for the relay connection, then push
+	var ws *websocket.Conn
+	for i := 0; i < 500 && ws == nil; i++ {
+		e.relay.mu.Lock()
+		ws = e.relay.conns[path]
+		e.relay.mu.Unlock()
+		if ws == nil {
+			time.Sleep(10 * time.Millisecond)
+		}
+	}
+	if ws == nil {
+		r.Note("stalled downloader: the proxy never dialed the relay (client could not connect?)")
+		close(block)
+		c.pc.Close()
+		c16WaitCount(0, 5*time.Second, 0)
+		return
+	}
+	pushed := make(chan int, 1)
+	go func() {
+		buf := make([]byte, 16<<10)
+		n := 0
+		for n < 6<<20 {
+			ws.SetWriteDeadline(time.Now().Add(10 * time.Second))
+			if ws.WriteMessage(websocket.BinaryMessage, buf) != nil {
+				break
+			}
+			n += len(buf)
+		}
+		pushed <- n
+	}()
+	time.Sleep(1500 * time.Millisecond)
+	during := tokens.count()
+	c.pc.Close() // the client goes away; its queue is never drained
+	close(block)
+	after := c16WaitCount(0, 20*time.Second, 200*time.Millisecond)
+	ws.Close()
+	n := 0
+	select {
+	case n = <-pushed:
+	case <-time.After(12 * time.Second):
+	}
+	real := fmt.Sprintf("slots in use during the transfer %d, 20 s after the client left %d (relay pushed %d bytes, client read %d)", during, after, n, atomic.LoadInt64(&got))
+	if after != 0 {
+		r.OracleFail("slot-leaked/stalled-downloader", line, real, "when the client goes away the data channel handler must end and release its slot, whatever was still queued for the client")
+	}
+}
+
 // repolled: a session that is told "no match" polls again pollInterval later; the load it reports must
 // be read again for every poll.  Nine other sessions hold a slot when the first poll is sent (reported
 // load 8) and are over before the second one (reported load must be 0: one slot in use).
@@ -1030,7 +1105,20 @@ func (e *c16Env) c06Cases(decoy string) []c16URLCase {
 	if n > len(out) {
 		n = len(out)
 	}
-	return out[:n]
+	out = out[:n]
+	// histories on one long-lived proxy (all cases with the same pattern and flag share one SnowflakeProxy, as in
+	// the real process): a relay accepted over TLS, then the same host without TLS, with another port, in another
+	// letter case, as userinfo of a decoy — every decision must be the one for that URL alone
+	for _, pat := range []string{"snowflake.torproject.net$", "torproject.net$", "$"} {
+		add("history/inside-wss", pat, false, "wss://"+in+"/")
+		add("history/same-host-ws", pat, false, "ws://"+in+"/")
+		add("history/inside-wss-port", pat, false, "wss://"+in+":443/")
+		add("history/same-hostport-ws", pat, false, "ws://"+in+":443/")
+		add("history/same-host-userinfo-decoy", pat, false, "ws://"+in+"@"+dhost+"/decoy")
+		add("history/inside-wss", pat, false, "wss://"+in+"/x")
+		add("history/same-host-http", pat, false, "http://"+in+"/")
+	}
+	return out
 }
 
 func c16IndependentMember(pattern, host string) bool {
@@ -1062,6 +1150,7 @@ func (e *c16Env) c06(pionOK bool) {
 	cases := e.c06Cases(decoy.URL)
 	var client *c16Client
 	leakReported := false
+	proxies := map[string]*SnowflakeProxy{} // one long-lived proxy per (pattern, flag)
 	for i, c := range cases {
 		if e.blocked >= 3 {
 			break
@@ -1084,7 +1173,12 @@ func (e *c16Env) c06(pionOK bool) {
 			}
 		}
 		p := &c16Plan{poll: "offer", offer: offer, relayURL: c.url, answer: "refuse", applyAfter: -1}
-		sf := c16Proxy(c.pattern, c.allow)
+		sfKey := fmt.Sprintf("%s|%v", c.pattern, c.allow)
+		sf := proxies[sfKey]
+		if sf == nil {
+			sf = c16Proxy(c.pattern, c.allow)
+			proxies[sfKey] = sf
+		}
 		before := tokens.count()
 		dmu.Lock()
 		hitsBefore := decoyHits
@@ -1197,6 +1291,21 @@ func c16PionSelfTest(e *c16Env) bool {
 	}
 }
 
+// TestVerifC06Proxy: the proxy-side clause of C06 alone (relay URLs through the real runSession on long-lived
+// proxies), registered under C06.
+func TestVerifC06Proxy(t *testing.T) {
+	r := vh.Start("C06")
+	defer r.Finish()
+	e := c16Setup(r)
+	defer e.broker.srv.Close()
+	defer e.relay.srv.Close()
+	e.pionOK = c16PionSelfTest(e)
+	if !e.pionOK {
+		r.Skip("pion 2-peer self-test failed: accepted relay URLs are not observable at /answer (junk offers); rejections are still judged")
+	}
+	e.c06(e.pionOK)
+}
+
 func TestVerifC16(t *testing.T) {
 	r := vh.Start("C16")
 	defer r.Finish()
@@ -1246,6 +1355,9 @@ func TestVerifC16(t *testing.T) {
 
 	if !broken() {
 		e.repolled()
+	}
+	if e.pionOK && !broken() {
+		e.stalledDownloader()
 	}
 
 	// D
